@@ -50,3 +50,80 @@ Theorem c18_single_text_nonempty : forall contact_lang allowed base native tr,
   fst (get_text contact_lang allowed base [native] tr) <> [].
 Proof. exact get_text_single_nonempty. Qed.
 Print Assumptions c18_single_text_nonempty.
+
+(* the single-text accessor (GetText: say_msg, play_audio, send_email, category names, set_run_result) returns the
+   first element of what the chain picks for the singleton base value, which is never an empty array *)
+Theorem c18_get_text1_spec : forall contact_lang allowed base native tr,
+  exists out used,
+    spec_pick contact_lang allowed base [native] tr out used
+    /\ out <> []
+    /\ get_text1 contact_lang allowed base native tr = (hd [] out, used).
+Proof. exact get_text1_spec. Qed.
+Print Assumptions c18_get_text1_spec.
+
+(* category names: the localized name saved with a router result is the chain's choice for the category's name
+   (base value "": an untranslated category has no localized name) *)
+Theorem c18_category_name : forall contact_lang allowed base tr,
+  exists out used,
+    spec_pick contact_lang allowed base [[]] tr out used
+    /\ category_localized contact_lang allowed base tr = hd [] out.
+Proof. exact category_localized_spec. Qed.
+Print Assumptions c18_category_name.
+
+(* set_run_result: the localized category is the chain's choice for the category, reported as "" exactly when that
+   choice is the category itself *)
+Theorem c18_set_run_result_category : forall contact_lang allowed base category tr,
+  exists out used,
+    spec_pick contact_lang allowed base [category] tr out used
+    /\ (hd [] out = category ->
+        set_run_result_category_localized contact_lang allowed base category tr = [])
+    /\ (hd [] out <> category ->
+        set_run_result_category_localized contact_lang allowed base category tr = hd [] out).
+Proof. exact set_run_result_category_spec. Qed.
+Print Assumptions c18_set_run_result_category.
+
+(* "text, attachments and quick replies are resolved independently", as non-interference: two messages that agree
+   on the base value and the translations of one property get the same value for it, whatever the other two hold
+   (c18_independent above is the same fact in the form "each is its own get_text call" and holds by construction
+   of the model; this form would fail for a model that leaks between the properties) *)
+Theorem c18_noninterference : forall contact_lang allowed base m m',
+  (m_text m = m_text m' -> tr_text m = tr_text m' ->
+   o_text (evaluate_message contact_lang allowed base m) = o_text (evaluate_message contact_lang allowed base m'))
+  /\ (m_atts m = m_atts m' -> tr_atts m = tr_atts m' ->
+   o_atts (evaluate_message contact_lang allowed base m) = o_atts (evaluate_message contact_lang allowed base m'))
+  /\ (m_qrs m = m_qrs m' -> tr_qrs m = tr_qrs m' ->
+   o_qrs (evaluate_message contact_lang allowed base m) = o_qrs (evaluate_message contact_lang allowed base m')).
+Proof. exact evaluate_message_noninterference. Qed.
+Print Assumptions c18_noninterference.
+
+(* callers that pass an explicit language list (send_broadcast): the first language of `langs ++ [base]` that is
+   the base language or has a non-empty translation wins *)
+Theorem c18_explicit_languages : forall langs base native tr,
+  exists pre post used out,
+    get_text_in langs base native tr = (out, used)
+    /\ langs ++ [base] = pre ++ used :: post
+    /\ Forall (fun l => ~ wins base tr l) pre
+    /\ wins base tr used
+    /\ yields base native tr used out.
+Proof. exact get_text_in_spec. Qed.
+Print Assumptions c18_explicit_languages.
+
+(* a broadcast carries one content per language — the flow language and every language the localization has
+   entries for — and each property of it is, independently, the stored translation of that language when it has a
+   non-empty one and the base value otherwise (always the base value for the flow language itself) *)
+Theorem c18_broadcast_translations : forall base loc_langs m l o,
+  In (l, o) (broadcast_translations base loc_langs m) ->
+  In l (base :: loc_langs)
+  /\ o_text o = hd [] (fst (get_text_in [l; base] base [m_text m] (tr_text m)))
+  /\ o_atts o = fst (get_text_in [l; base] base (m_atts m) (tr_atts m))
+  /\ o_qrs o = fst (get_text_in [l; base] base (m_qrs m) (tr_qrs m)).
+Proof. exact broadcast_translations_spec. Qed.
+Print Assumptions c18_broadcast_translations.
+
+Theorem c18_broadcast_language_value : forall l base native tr,
+  (l = base -> get_text_in [l; base] base native tr = (native, base))
+  /\ (l <> base -> forall ts, lookup tr l = Some ts -> stored_nonempty ts ->
+      get_text_in [l; base] base native tr = (ts, l))
+  /\ (l <> base -> ~ has_translation tr l -> get_text_in [l; base] base native tr = (native, base)).
+Proof. exact get_text_in_pair. Qed.
+Print Assumptions c18_broadcast_language_value.
